@@ -26,12 +26,14 @@ pub enum ChildOutcome {
 static COUNTER: std::sync::atomic::AtomicU64 = std::sync::atomic::AtomicU64::new(0);
 
 fn scratch_dir() -> String {
-    let d = format!("/tmp/verif-harness-{}", std::process::id());
+    let root = if std::path::Path::new("/dev/shm").is_dir() { "/dev/shm" } else { "/tmp" };
+    let d = format!("{}/verif-harness-{}", root, std::process::id());
     let _ = std::fs::create_dir_all(&d);
     d
 }
 pub fn cleanup_scratch() {
     let _ = std::fs::remove_dir_all(format!("/tmp/verif-harness-{}", std::process::id()));
+    let _ = std::fs::remove_dir_all(format!("/dev/shm/verif-harness-{}", std::process::id()));
 }
 /// A fresh scratch file path private to this process.
 pub fn scratch_path(stem: &str) -> String {
